@@ -848,6 +848,12 @@ impl Session {
             stream_id,
             data.len()
         );
+        // A frame carries at most 65535 payload bytes: split larger chunks.
+        let mut data = data;
+        while data.len() > u16::MAX as usize {
+            let head = data.split_to(u16::MAX as usize);
+            self.write_frame(Frame::data(stream_id, head)).await?;
+        }
         let frame = Frame::data(stream_id, data);
         self.write_frame(frame).await
     }
